@@ -1,6 +1,6 @@
 (* Proofs/PortmapProofs.v — lemmas about Model/Portmap.v (C27). *)
 From Coq Require Import List NArith ZArith Bool Lia ZifyBool ZifyNat ZifyN.
-From Verif Require Import Model.Portmap.
+From Verif Require Import Gen.Facts Model.Portmap.
 Import ListNotations.
 Open Scope N_scope.
 
@@ -41,11 +41,11 @@ Qed.
 
 Lemma v2_set_nonlocal : forall reg c args, local_caller c = false -> fst (v2_set reg c args) = reg.
 Proof.
-  intros reg c args H. unfold v2_set, v2_refused. rewrite guard_spec, H. reflexivity.
+  intros reg c args H. unfold v2_set, v2_refused. rewrite guard_spec, H. reflexivity. (* needs f_pm_v2_set_guarded = true *)
 Qed.
 Lemma v2_unset_nonlocal : forall reg c args, local_caller c = false -> fst (v2_unset reg c args) = reg.
 Proof.
-  intros reg c args H. unfold v2_unset, v2_refused. rewrite guard_spec, H. reflexivity.
+  intros reg c args H. unfold v2_unset, v2_refused. rewrite guard_spec, H. reflexivity. (* needs f_pm_v2_unset_guarded = true *)
 Qed.
 
 Lemma v2_proc_nonlocal : forall reg c proc args reg' res, local_caller c = false ->
@@ -64,7 +64,9 @@ Qed.
 Lemma rpcb_proc_nonlocal : forall la reg c proc args reg' res, local_caller c = false ->
   rpcb_proc la reg c proc args = Some (reg', res) -> reg' = reg.
 Proof.
-  intros la reg c proc args reg' res Hc H. unfold rpcb_proc in H. rewrite guard_spec, Hc in H.
+  intros la reg c proc args reg' res Hc H. unfold rpcb_proc, rpcb_admitted in H. rewrite guard_spec, Hc in H.
+  (* needs f_pm_rpcb_set_guarded = f_pm_rpcb_unset_guarded = true *)
+  change (negb f_pm_rpcb_set_guarded || false) with false in H. change (negb f_pm_rpcb_unset_guarded || false) with false in H.
   destruct (proc =? 0); [inversion H; reflexivity|].
   destruct (proc =? 1); [inversion H; reflexivity|].
   destruct (proc =? 2); [inversion H; reflexivity|].
@@ -471,9 +473,10 @@ Proof.
     rewrite bytes_ok_app, !enc32_bytes. reflexivity.
 Qed.
 
-Lemma supported_range : forall v, supported v = (2 <=? v) && (v <=? 4).
+Lemma supported_range : forall v, supported v = (VERS_LOW <=? v) && (v <=? VERS_HIGH).
 Proof.
-  intros v. unfold supported.
+  intros v. change (supported v) with ((v =? 2) || ((v =? 3) || ((v =? 4) || false))).
+  change VERS_LOW with 2. change VERS_HIGH with 4.
   destruct (N.eqb_spec v 2), (N.eqb_spec v 3), (N.eqb_spec v 4), (N.leb_spec 2 v), (N.leb_spec v 4);
     cbn; try reflexivity; lia.
 Qed.
@@ -486,12 +489,12 @@ Proof. intros b. apply enc32_bytes. Qed.
 
 Lemma v2_set_res : forall reg c args, exists b, snd (v2_set reg c args) = enc_bool b.
 Proof.
-  intros. unfold v2_set. destruct (v2_refused c); [eexists; reflexivity|].
+  intros. unfold v2_set. destruct (v2_refused f_pm_v2_set_guarded c); [eexists; reflexivity|].
   destruct (args4 args) as [[[[p v] t] port]|]; eexists; reflexivity.
 Qed.
 Lemma v2_unset_res : forall reg c args, exists b, snd (v2_unset reg c args) = enc_bool b.
 Proof.
-  intros. unfold v2_unset. destruct (v2_refused c); [eexists; reflexivity|].
+  intros. unfold v2_unset. destruct (v2_refused f_pm_v2_unset_guarded c); [eexists; reflexivity|].
   destruct (args4 args) as [[[[p v] t] port]|]; eexists; reflexivity.
 Qed.
 Lemma rpcb_set_res : forall reg args, exists b, snd (rpcb_set reg args) = enc_bool b.
@@ -561,12 +564,12 @@ Proof.
   destruct (h_proc h =? 0) eqn:E0; [inversion H; subst; split; reflexivity|].
   destruct (h_proc h =? 1) eqn:E1.
   { cbn [orb]. inversion H as [H1]. destruct (rpcb_set_res reg args) as [b Hb].
-    destruct (is_loopback_addr c).
+    destruct (rpcb_admitted f_pm_rpcb_set_guarded c).
     - rewrite H1 in Hb. cbn [snd] in Hb. subst res. split; [apply p_bool_res|apply enc_bool_bytes].
     - inversion H1; subst. split; [apply p_bool_res|apply enc_bool_bytes]. }
   destruct (h_proc h =? 2) eqn:E2.
   { cbn [orb]. inversion H as [H1]. destruct (rpcb_unset_res reg args) as [b Hb].
-    destruct (is_loopback_addr c).
+    destruct (rpcb_admitted f_pm_rpcb_unset_guarded c).
     - rewrite H1 in Hb. cbn [snd] in Hb. subst res. split; [apply p_bool_res|apply enc_bool_bytes].
     - inversion H1; subst. split; [apply p_bool_res|apply enc_bool_bytes]. }
   cbn [orb]. destruct (h_proc h =? 3) eqn:E3.
@@ -592,10 +595,10 @@ Proof.
   2:{ cbn [snd]. rewrite make_reply_bytes by reflexivity. rewrite p_reply_make.
       change (PROG_MISMATCH =? MSG_ACCEPTED) with false. cbv iota.
       rewrite p_reply_status by (cbv; (reflexivity || discriminate)).
-      change (PROG_MISMATCH =? 2) with true. cbv iota. rewrite <- supported_range, Hs. reflexivity. }
+      change (PROG_MISMATCH =? 2) with true. cbv iota. change 2 with VERS_LOW at 1. change 4 with VERS_HIGH. rewrite <- supported_range, Hs. reflexivity. }
   assert (Hcases : h_vers h = 2 \/ h_vers h = 3 \/ h_vers h = 4).
-  { unfold supported in Hs. destruct (N.eqb_spec (h_vers h) 2); [auto|].
-    destruct (N.eqb_spec (h_vers h) 3); [auto|]. destruct (N.eqb_spec (h_vers h) 4); [auto|discriminate]. }
+  { rewrite supported_range in Hs. change VERS_LOW with 2 in Hs. change VERS_HIGH with 4 in Hs.
+    apply andb_true_iff in Hs. destruct Hs as [H1 H2]. apply N.leb_le in H1, H2. lia. }
   destruct (h_vers h =? 2) eqn:Hv.
   - apply N.eqb_eq in Hv.
     destruct (v2_proc reg c (h_proc h) args) as [[reg' res]|] eqn:E; cbn [snd].
@@ -757,23 +760,23 @@ Proof.
   destruct (h_vers h =? 2).
   - unfold v2_proc. destruct (h_proc h =? P_NULL); [exact Hok|].
     destruct (h_proc h =? P_SET).
-    { cbn [fst]. unfold v2_set. destruct (v2_refused c); [exact Hok|].
+    { cbn [fst]. unfold v2_set. destruct (v2_refused f_pm_v2_set_guarded c); [exact Hok|].
       destruct (args4 args) as [[[[p v] t] port]|] eqn:E; [|exact Hok]. cbn [fst].
       apply register_ok; [exact Hok|exact (args4_ok _ _ _ _ _ Hb E)]. }
     destruct (h_proc h =? P_UNSET).
-    { cbn [fst]. unfold v2_unset. destruct (v2_refused c); [exact Hok|].
+    { cbn [fst]. unfold v2_unset. destruct (v2_refused f_pm_v2_unset_guarded c); [exact Hok|].
       destruct (args4 args) as [[[[p v] t] port]|]; [|exact Hok]. cbn [fst]. apply unregister_ok; exact Hok. }
     destruct (h_proc h =? P_GETPORT); [exact Hok|]. destruct (h_proc h =? P_DUMP); exact Hok.
   - unfold rpcb_proc. destruct (h_proc h =? 0); [exact Hok|].
     destruct (h_proc h =? 1).
-    { cbn [fst]. destruct (is_loopback_addr c); [|exact Hok]. unfold rpcb_set.
+    { cbn [fst]. destruct (rpcb_admitted f_pm_rpcb_set_guarded c); [|exact Hok]. unfold rpcb_set.
       destruct (rpcb_head args) as [[[[p v] n] s]|] eqn:E; [|exact Hok].
       destruct (get_string s) as [[u s']|]; [|exact Hok]. cbn [fst].
       destruct (0 <? uaddr_port u); [|exact Hok].
       destruct (rpcb_head_ok _ _ _ _ _ Hb E) as [Hp Hv].
       apply register_ok; [exact Hok|]. apply entry_ok_intro; try assumption; [apply prot_set_lt|apply uaddr_port_lt]. }
     destruct (h_proc h =? 2).
-    { cbn [fst]. destruct (is_loopback_addr c); [|exact Hok]. unfold rpcb_unset.
+    { cbn [fst]. destruct (rpcb_admitted f_pm_rpcb_unset_guarded c); [|exact Hok]. unfold rpcb_unset.
       destruct (rpcb_head args) as [[[[p v] n] s]|]; [|exact Hok]. cbn [fst]. apply unregister_ok; exact Hok. }
     destruct (h_proc h =? 3); [exact Hok|]. destruct (h_proc h =? 4); exact Hok.
 Qed.
@@ -796,20 +799,20 @@ Proof.
   destruct (h_vers h =? 2).
   - unfold v2_proc. destruct (h_proc h =? P_NULL); [exact Hnd|].
     destruct (h_proc h =? P_SET).
-    { cbn [fst]. unfold v2_set. destruct (v2_refused c); [exact Hnd|].
+    { cbn [fst]. unfold v2_set. destruct (v2_refused f_pm_v2_set_guarded c); [exact Hnd|].
       destruct (args4 args) as [[[[p v] t] port]|]; [|exact Hnd]. apply register_nodup; exact Hnd. }
     destruct (h_proc h =? P_UNSET).
-    { cbn [fst]. unfold v2_unset. destruct (v2_refused c); [exact Hnd|].
+    { cbn [fst]. unfold v2_unset. destruct (v2_refused f_pm_v2_unset_guarded c); [exact Hnd|].
       destruct (args4 args) as [[[[p v] t] port]|]; [|exact Hnd]. apply unregister_nodup; exact Hnd. }
     destruct (h_proc h =? P_GETPORT); [exact Hnd|]. destruct (h_proc h =? P_DUMP); exact Hnd.
   - unfold rpcb_proc. destruct (h_proc h =? 0); [exact Hnd|].
     destruct (h_proc h =? 1).
-    { cbn [fst]. destruct (is_loopback_addr c); [|exact Hnd]. unfold rpcb_set.
+    { cbn [fst]. destruct (rpcb_admitted f_pm_rpcb_set_guarded c); [|exact Hnd]. unfold rpcb_set.
       destruct (rpcb_head args) as [[[[p v] n] s]|]; [|exact Hnd].
       destruct (get_string s) as [[u s']|]; [|exact Hnd]. cbn [fst].
       destruct (0 <? uaddr_port u); [|exact Hnd]. apply register_nodup; exact Hnd. }
     destruct (h_proc h =? 2).
-    { cbn [fst]. destruct (is_loopback_addr c); [|exact Hnd]. unfold rpcb_unset.
+    { cbn [fst]. destruct (rpcb_admitted f_pm_rpcb_unset_guarded c); [|exact Hnd]. unfold rpcb_unset.
       destruct (rpcb_head args) as [[[[p v] n] s]|]; [|exact Hnd]. apply unregister_nodup; exact Hnd. }
     destruct (h_proc h =? 3); [exact Hnd|]. destruct (h_proc h =? 4); exact Hnd.
 Qed.
@@ -911,7 +914,7 @@ Lemma map_set : forall la reg c data xid args p v t port,
 Proof.
   intros la reg c data xid args p v t port Hc Ha. rewrite (handle_call_v2 _ _ _ _ _ _ _ Hc).
   change (v2_proc reg c 1 args) with (Some (v2_set reg c args)). unfold v2_set, v2_refused.
-  rewrite guard_spec, Ha. destruct (local_caller c); reflexivity.
+  rewrite guard_spec, Ha. change f_pm_v2_set_guarded with true. destruct (local_caller c); reflexivity.
 Qed.
 Lemma map_unset : forall la reg c data xid args p v t port,
   pm_call data 2 2 xid args -> args4 args = Some (p, v, t, port) ->
@@ -921,7 +924,7 @@ Lemma map_unset : forall la reg c data xid args p v t port,
 Proof.
   intros la reg c data xid args p v t port Hc Ha. rewrite (handle_call_v2 _ _ _ _ _ _ _ Hc).
   change (v2_proc reg c 2 args) with (Some (v2_unset reg c args)). unfold v2_unset, v2_refused.
-  rewrite guard_spec, Ha. destruct (local_caller c); reflexivity.
+  rewrite guard_spec, Ha. change f_pm_v2_unset_guarded with true. destruct (local_caller c); reflexivity.
 Qed.
 Lemma map_rpcb_set : forall la reg c data vers xid args p v netid rest uaddr rest', vers = 3 \/ vers = 4 ->
   pm_call data vers 1 xid args -> rpcb_head args = Some (p, v, netid, rest) -> get_string rest = Some (uaddr, rest') ->
